@@ -127,6 +127,16 @@ def run(prog, rep, tier):
         r1.ok("ConfedEbgp: member AS prepended in a confed segment; nothing stripped")
     else:
         r1.fail(fv.name, "confed-rewrite", "the confed-eBGP arm does not (only) prepend the member AS in a confederation segment", fv.loc())
+    # .. on both ways the AS_PATH can come about (rewritten in the attribute map, or created when the route has none)
+    if has({"ConfedEbgp"}, "Attribute::as_path_prepend"):
+        r1.fail(fv.name, "confed-plain-prepend", "the confed-eBGP arm prepends the member AS with as_path_prepend (an AS_SEQUENCE) on some path: the member AS then counts as a real hop and "
+                "survives as_path_strip_confed at the next member; it belongs in an AS_CONFED_SEQUENCE (as_path_prepend_confed)", fv.loc())
+    else:
+        n_cp = _count_calls_in_arm(prog, fv, {"ConfedEbgp"}, "Attribute::as_path_prepend_confed", brs)
+        if n_cp == (1, 1):
+            r1.ok("ConfedEbgp: member AS prepended in a confed segment exactly once (attribute map and AS_PATH-less fallback)")
+        else:
+            r1.fail(fv.name, "confed-prepend-count", "as_path_prepend_confed call sites in the confed-eBGP arm: %s in the attribute map, %s fallback (want 1 and 1, mutually exclusive)" % n_cp, fv.loc())
     # Ibgp
     if has({"Ibgp", "IbgpRrClient"}, "inject_local_pref_if_absent") and not any(has({"Ibgp", "IbgpRrClient"}, s) for s in ("as_path_prepend", "as_path_prepend_confed", "as_path_strip_confed")):
         r1.ok("Ibgp/IbgpRrClient: LOCAL_PREF injected if absent, AS_PATH untouched")
